@@ -47,6 +47,8 @@ where
     #[inline]
     fn process(&mut self, el: StreamElement<A::In>) -> Self::Output {
         let now = Instant::now();
+        #[cfg(feature = "verif")]
+        let now = crate::verif::now(now);
         match el {
             StreamElement::Item(item) | StreamElement::Timestamped(item, _) => {
                 // TODO: Windows are not aligned if there are periods without windows, evaluate if it needs to be changed
